@@ -391,10 +391,11 @@ class GoalProgrammingMixin(_GoalProgrammingMixinBase):
                     expr = goal.function(self, ensemble_member)
 
                 function = ca.Function("f", [self.solver_input], [expr])
-                value = np.array(function(self.solver_output))
+                # One value per entry of the bound arrays (a column vector for path goals)
+                value = np.array(function(self.solver_output)).reshape(m.shape)
 
-                m[inds] = (value - goal.relaxation) / goal.function_nominal
-                M[inds] = (value + goal.relaxation) / goal.function_nominal
+                m[inds] = ((value - goal.relaxation) / goal.function_nominal)[inds]
+                M[inds] = ((value + goal.relaxation) / goal.function_nominal)[inds]
 
             m -= options["constraint_relaxation"]
             M += options["constraint_relaxation"]
